@@ -4,8 +4,10 @@ import (
 	"bytes"
 	"encoding/json"
 	"fmt"
+	"math"
 	"os"
 	"strings"
+	"time"
 	"unicode/utf8"
 
 	zlint "github.com/zmap/zlint/v3"
@@ -381,7 +383,8 @@ func init() {
 			ev.Coverage["details_compared"] = r.Counters["details_compared"]
 			ev.Coverage["details_with_invalid_utf8"] = r.Counters["details_with_invalid_utf8"]
 			ev.Coverage["listing_lints_decoded"] = r.SetSize("listing_lints")
-			if r.Counters["listing_passes"] < 5 {
+			ev.Coverage["unusual_metadata_lints_listed"] = r.Counters["unusual_metadata_lints_listed"]
+			if r.Counters["listing_passes"] < 6 || r.Counters["unusual_metadata_lints_listed"] < 10 {
 				gates = append(gates, "the additions scenario (own process) did not complete")
 			}
 			ev.Coverage["api_churn_rounds"] = r.Counters["api_churn_rounds"]
@@ -406,6 +409,7 @@ func init() {
 // public API, WriteJSON is called again: one decodable line per registered lint, every time.
 func c14Solo(c *mon.Ctx) {
 	g := lint.GlobalRegistry()
+	added := map[string]lint.LintMetadata{}
 	check := func(when string) {
 		var buf bytes.Buffer
 		g.WriteJSON(&buf)
@@ -422,6 +426,11 @@ func c14Solo(c *mon.Ctx) {
 				continue
 			}
 			names[m.Name]++
+			if w, ok := added[m.Name]; ok {
+				if m.Description != refUTF8(w.Description) || m.Citation != refUTF8(w.Citation) || m.Source != w.Source {
+					c.V("listing-line-content|"+when, fmt.Sprintf("%s: the listing line of %s decodes to description %q citation %q source %q, registered with %q %q %q", when, m.Name, clipS(m.Description, 60), clipS(m.Citation, 60), m.Source, clipS(w.Description, 60), clipS(w.Citation, 60), w.Source), m.Name, nil, nil)
+				}
+			}
 		}
 		want := g.Names()
 		c.R.Count("evaluations", 1)
@@ -447,4 +456,31 @@ func c14Solo(c *mon.Ctx) {
 	check("after adding a certificate lint")
 	lint.RegisterRevocationListLint(&lint.RevocationListLint{LintMetadata: md("e_verif_c14_crl2", lint.Community), Lint: func() lint.RevocationListLintInterface { return probeCRL{} }})
 	check("after adding a second CRL lint")
+	// lints whose metadata is legal but unusual: windows with instants far outside the calendar JSON knows (open-ended
+	// sentinels such as the largest Unix time, year 10000, year 0, negative years), texts with quotes, control
+	// characters, U+2028 and bytes that are not UTF-8. Each must still get its one line, decoding to its own name,
+	// description, citation and source.
+	far := []time.Time{time.Unix(math.MaxInt64/2, 0), time.Date(10000, 1, 1, 0, 0, 0, 0, time.UTC), time.Date(0, 1, 1, 0, 0, 0, 0, time.UTC), time.Date(-5, 6, 1, 0, 0, 0, 0, time.UTC), time.Unix(math.MinInt64/2, 0), time.Date(2024, 1, 1, 0, 0, 0, 0, time.FixedZone("odd", 17*3600+1800+7)), {}}
+	texts := []string{"plain", "quote \" backslash \\ <tag> &amp;", "line\nbreak\ttab\x01", "sep\u2028arator\u2029", "bad \xff\xfe bytes \xc2", "", strings.Repeat("long ", 2000)}
+	k := 0
+	for ei, e := range far {
+		for ii, in := range far {
+			if (ei+ii)%3 != 0 && !(e.IsZero() || in.IsZero()) {
+				continue
+			}
+			m := lint.LintMetadata{Name: fmt.Sprintf("e_verif_c14_far_%d_%d", ei, ii), Description: texts[k%len(texts)], Citation: texts[(k+3)%len(texts)], Source: []lint.LintSource{lint.RFC5280, lint.Community, lint.RFC6960}[k%3], EffectiveDate: e, IneffectiveDate: in}
+			switch k % 3 {
+			case 0:
+				lint.RegisterCertificateLint(&lint.CertificateLint{LintMetadata: m, Lint: func() lint.CertificateLintInterface { return probeCert{} }})
+			case 1:
+				lint.RegisterRevocationListLint(&lint.RevocationListLint{LintMetadata: m, Lint: func() lint.RevocationListLintInterface { return probeCRL{} }})
+			default:
+				lint.RegisterOcspResponseLint(&lint.OcspResponseLint{LintMetadata: m, Lint: func() lint.OcspResponseLintInterface { return probeOCSP{} }})
+			}
+			k++
+			added[m.Name] = m
+		}
+	}
+	check(fmt.Sprintf("after adding %d lints with unusual windows and texts", k))
+	c.R.Count("unusual_metadata_lints_listed", int64(k))
 }
